@@ -117,6 +117,37 @@ def design_pass(ctx):
     ctx.cov["exhaustive"] = all(p.get("exhaustive", True) for p in ctx.cov["passes"] if p["pass"].startswith("design:"))
 
 
+def action_coverage_pass(ctx):
+    """Vacuity guard for the design passes (thorough tier): the property's quick-size configurations are searched once more with
+    TLC's `-coverage 1`; for every place where a model action emits its event (`ev' = ...` / `sev' = ...`) the number of successor
+    states generated there is recorded, and the actions never taken in that configuration are LISTED (not hidden)."""
+    if ctx.tier != "thorough":
+        return
+    for name, props, invs in plan.MC.get(ctx.pid, {}).get("quick", []):
+        c = plan.MC_CONFIGS[name]
+        cfg = mc_cfg(c, props, invs, ctx.known_ids)
+        try:
+            rc, out, dt, d = ctx.tlc(c["module"] + ".tla", cfg, "cov-" + name, workers=16, timeout=900, extra=["-coverage", "1"])
+        except vcheck.MachineryError as ex:
+            ctx.cov["passes"].append({"pass": "action-coverage:" + name, "error": str(ex)[:200]})
+            continue
+        # the last statistics block
+        k = out.rfind("The coverage statistics at")
+        block = out[k:] if k >= 0 else out
+        per_line = {}
+        for m in re.finditer(r"^\s*\|*line (\d+), col \d+ to line \d+, col \d+ of module (\w+): (\d+)", block, re.M):
+            key = (m.group(2), int(m.group(1)))
+            per_line[key] = max(per_line.get(key, 0), int(m.group(3)))
+        counts = {}
+        mod = "SettingsSys" if c["module"] == "SettingsSys" else "Cluster"
+        for i, line in enumerate(open(os.path.join(vcheck.SPEC, mod + ".tla")), 1):
+            mm = re.search(r"\bs?ev' = \w+\(\"(\w+)\"", line)
+            if mm:
+                counts[mm.group(1)] = counts.get(mm.group(1), 0) + per_line.get((mod, i), 0)
+        never = sorted(a for a, n in counts.items() if n == 0)
+        ctx.cov["passes"].append({"pass": "action-coverage:" + name, "successors_per_action": counts, "actions_never_taken": never, "wall_s": round(dt, 1)})
+
+
 def liveness_pass(ctx):
     """Design-level liveness: TLC checks the temporal property under weak fairness on a small configuration (no state
     constraint).  A counterexample in the model is a machinery error, not a verdict; the convicting convergence check is the
@@ -262,38 +293,40 @@ def fault_pass(ctx):
 
 
 def schedule_pass(ctx):
-    """Binding B2: behaviours of the system model (TLC simulation of Cluster.tla through Sched.tla) are replayed, label by label,
-    into the real reconcilers; the resulting REAL trace is judged by the property's formulas and measured for conformance."""
-    spec = plan.SCHED.get(ctx.pid)
-    if not spec:
-        return True
+    """Binding B2: behaviours of the system models (TLC simulation of Cluster.tla through Sched.tla, of SettingsSys.tla through
+    SchedSettings.tla, of the two-object composition Multi.tla) are replayed, label by label, into the real reconcilers; the
+    resulting REAL trace is judged by the property's formulas and measured for conformance."""
     props, invs = plan.TRACE.get(ctx.pid, ([], []))
-    num, depth = (40, 50) if ctx.tier == "quick" else (400, 70)
-    cfg = open(os.path.join(vcheck.SPEC, "Sched_%s.cfg" % spec)).read().replace("Depth = 60", "Depth = %d" % depth)
-    module = {"settings": "SchedSettings.tla"}.get(spec, "Sched.tla")
-    rc, out, dt, d = ctx.tlc(module, cfg, "sched-" + spec, workers=1, timeout=900, extra=["-simulate", "num=%d" % num, "-depth", str(depth + 1), "-seed", str(ctx.seed)])
-    scheds, seen = [], set()
-    for m in re.finditer(r'<<\s*"SCHED",\s*<<(.*?)>>\s*>>', out, re.S):
-        s = re.findall(r'"([^"]*)"', m.group(1))
-        if tuple(s) not in seen:    # TLC evaluates the printing constraint more than once per behaviour
-            seen.add(tuple(s))
-            scheds.append(s)
-    if not scheds:
-        raise vcheck.MachineryError("no schedule generated by TLC simulation:\n" + out[-1500:])
-    sfile = os.path.join(ctx.work, "schedules.json")
-    nodes = ["n1", "n2", "n3"]
-    json.dump({"config": spec, "nodes": nodes, "tmpls": ["A", "B"], "schedules": scheds}, open(sfile, "w"))
-    trace = os.path.join(ctx.work, "schedules.ndjson")
-    o, dt2 = ctx.sim(["schedules", "-in", sfile, "-out", trace])
-    info = json.loads(o.strip().splitlines()[-1])
-    ctx.cov["passes"].append({"pass": "b2-schedules:" + spec, "tlc_wall_s": round(dt, 1), "harness_wall_s": round(dt2, 1), **info})
-    ctx.cov["traces_validated_against_impl"] += info["schedules"]
-    ctx.cov["evaluations"] += info["events"]
-    ctx.cov["samples"].append({"schedule": scheds[0][:25]})
-    ok = ctx.judge_traces(trace, props, invs, label="b2")
-    if ok:
+    for spec in plan.SCHED.get(ctx.pid, []):
+        num, depth = (40, 50) if ctx.tier == "quick" else (400, 70)
+        if spec == "multi":
+            num, depth = (30, 80) if ctx.tier == "quick" else (300, 110)
+        cfg = open(os.path.join(vcheck.SPEC, "Sched_%s.cfg" % spec)).read().replace("Depth = 60", "Depth = %d" % depth)
+        module = {"settings": "SchedSettings.tla", "multi": "Multi.tla"}.get(spec, "Sched.tla")
+        rc, out, dt, d = ctx.tlc(module, cfg, "sched-" + spec, workers=1, timeout=900, extra=["-simulate", "num=%d" % num, "-depth", str(depth + 1), "-seed", str(ctx.seed)])
+        scheds, seen = [], set()
+        for m in re.finditer(r'<<\s*"SCHED",\s*<<(.*?)>>\s*>>', out, re.S):
+            s = re.findall(r'"([^"]*)"', m.group(1))
+            if tuple(s) not in seen:    # TLC evaluates the printing constraint more than once per behaviour
+                seen.add(tuple(s))
+                scheds.append(s)
+        if not scheds:
+            raise vcheck.MachineryError("no schedule generated by TLC simulation:\n" + out[-1500:])
+        sfile = os.path.join(ctx.work, "schedules-%s.json" % spec)
+        nodes = ["n1", "n2", "n3"]
+        json.dump({"config": spec, "nodes": nodes, "tmpls": ["A", "B"], "schedules": scheds}, open(sfile, "w"))
+        trace = os.path.join(ctx.work, "schedules-%s.ndjson" % spec)
+        o, dt2 = ctx.sim(["schedules", "-in", sfile, "-out", trace])
+        info = json.loads(o.strip().splitlines()[-1])
+        ctx.cov["passes"].append({"pass": "b2-schedules:" + spec, "tlc_wall_s": round(dt, 1), "harness_wall_s": round(dt2, 1), **info})
+        ctx.cov["traces_validated_against_impl"] += info["schedules"]
+        ctx.cov["evaluations"] += info["events"]
+        ctx.cov["samples"].append({"schedule": scheds[0][:25]})
+        ok = ctx.judge_traces(trace, props, invs, label="b2-" + spec)
+        if not ok:
+            return False
         conformance_pass(ctx, trace)
-    return ok
+    return True
 
 
 def race_pass(ctx):
@@ -356,6 +389,7 @@ def run_property(ctx):
     if ok:
         design_pass(ctx)
         liveness_pass(ctx)
+        action_coverage_pass(ctx)
     level = {"C11": "fault_enumeration", "C17": "other"}.get(ctx.pid, "model_checking")
     ctx.write_evidence(level, rule=plan.RULES["default"])
     return ok
